@@ -1061,6 +1061,9 @@ func (p pkgSpec) cases(maxProduct int, gen string) string {
 		pbImport += "\t\"scratch/as\"\n"
 	}
 	sb.WriteString("package pa\n\nimport (\n\t\"fmt\"\n\trf \"reflect\"\n\t\"time\"\n\t\"github.com/csgura/fp\"\n\t\"github.com/csgura/fp/option\"\n" + pbImport + ")\n\nvar _ = fmt.Sprint\nvar _ = time.Second\nvar _ fp.Unit\nvar _ = option.None[int]\nvar _ = rf.TypeOf\n\n")
+	if p.usesUserAs() {
+		sb.WriteString("var _ as.Level\n\n")
+	}
 	up := func(n string) string { return strings.ToUpper(n[:1]) + n[1:] }
 	for _, s := range p.structs {
 		if s.json {
